@@ -3,6 +3,7 @@ from ..gens import *
 
 ID = "C16"
 LEAN_MODULE = "Ucfg.Props.C16"
+LEVEL_TEXT = 'Theorems on the field-option tree: no tree = global policy, a non-matching key drops the tree, a matching one applies exactly there, wildcards; Spec.C01 with a per-field policy map as oracle.'
 CORRESPONDENCE = "Merge.mergeF/fieldOptsOverride ~ (*Config).Merge(..., FieldXValues(path), global policy)"
 RULE = ("pairs of dictionary trees (dictionaries nested 1-4 deep over a 5-key alphabet, lists and primitives at any key), a global "
         "policy, and 1-3 per-field options (4 kinds) whose dotted paths are present / absent in either tree and name dictionaries, "
